@@ -197,7 +197,7 @@ func oracle(p prog, o outcome) string {
 		}
 		if ok {
 			switch p.act {
-			case "s:km", "s:kz", "s:ka":
+			case "s:km", "s:kz", "s:ka", "s:zv", "s:zt", "s:zi", "s:zw":
 				return "VIOL:" + cls("zero-construct-outside") + " " + detail
 			}
 			return "VIOL:" + cls("construct-outside") + " " + detail
